@@ -2813,6 +2813,8 @@ impl Interpreter {
         gen_state: &Rc<RefCell<BytecodeGeneratorState>>,
     ) -> Result<Guarded, JsError> {
         use bytecode_vm::{BytecodeVM, VmResult};
+        #[cfg(feature = "verif-hooks")]
+        let _verif_reentry = crate::verif_hooks::ReentryGuard::enter();
 
         // Check if generator is already completed
         {
@@ -3803,6 +3805,8 @@ impl Interpreter {
         args: &[JsValue],
         new_target: JsValue,
     ) -> Result<Guarded, JsError> {
+        #[cfg(feature = "verif-hooks")]
+        let _verif_reentry = crate::verif_hooks::ReentryGuard::enter();
         let JsValue::Object(func_obj) = callee else {
             return Err(JsError::type_error("Not a function"));
         };
